@@ -78,8 +78,9 @@ class Model:
         if name in MATCH_AMOUNT:
             if adv is not None and not (isinstance(adv, ast.Constant) and adv.value is True):
                 return 0
-            if name == "_match" and len(e.args) >= 2:  # positional advance
-                a = e.args[1]
+            pos_adv = {"_match": 1, "_match_set": 1, "_match_texts": 1, "_match_pair": 2}[name]
+            if len(e.args) > pos_adv:  # positional advance flag
+                a = e.args[pos_adv]
                 if not (isinstance(a, ast.Constant) and a.value is True):
                     return 0
             return MATCH_AMOUNT[name]
@@ -113,6 +114,33 @@ class Model:
         finally:
             self.strict_errors = saved
         cache[name] = ok
+        return ok
+
+    def productive_with_call(self, name: str, call: ast.Call, via_super: bool = False) -> bool:
+        """productive for this particular call: parameters the call does not pass keep their (falsy) defaults"""
+        if not getattr(self, "solved", False) or any(isinstance(a, ast.Starred) for a in call.args) or any(k.arg is None for k in call.keywords):
+            return False
+        cache = self.__dict__.setdefault("_pwc_cache", {})
+        skip_md = self.__dict__.get("_cur_md") if via_super else None
+        key = (name, len(call.args), tuple(sorted(k.arg for k in call.keywords)), tuple(norm(k.value, 30) for k in call.keywords), self.__dict__.get("_cur_falsy", frozenset()), id(skip_md))
+        if key in cache:
+            return cache[key]
+        cache[key] = False
+        ok = bool(self.defs.get(name))
+        for c, md in self.defs.get(name, []):
+            if md is skip_md:
+                continue  # super().name(...): the override's own definition is not a callee
+            pos = [x.arg for x in md.args.args if x.arg != "self"]
+            cur_falsy = self.__dict__.get("_cur_falsy", frozenset())
+            # an argument that forwards a parameter known to be falsy in the calling context, or a falsy constant, leaves the default in force
+            def _is_falsy_arg(v: ast.AST) -> bool:
+                return (isinstance(v, ast.Name) and v.id in cur_falsy) or (isinstance(v, ast.Constant) and not v.value)
+            given = frozenset(nm for nm, v in zip(pos, call.args) if not _is_falsy_arg(v)) | frozenset(k.arg for k in call.keywords if not _is_falsy_arg(k.value))
+            r, _ = self.method_productive(c, md, defaults_only=True, given=given)
+            if not r:
+                ok = False
+                break
+        cache[key] = ok
         return ok
 
     def productive_callable(self, f: ast.AST, locals_: dict[str, bool]) -> bool:
@@ -180,10 +208,12 @@ class Model:
                     return True
                 if not e.args and not e.keywords and getattr(self, "P0", {}).get(name, False):
                     return True  # productive when called with its defaults
+                if (e.args or e.keywords) and self.productive_with_call(name, e):
+                    return True  # productive for the parameters this call leaves at their falsy defaults
                 return self._passthrough_call(name, e, locals_)
             if cn.startswith("super()."):
                 name = cn[8:]
-                return self.P.get(name, False) or self._passthrough_call(name, e, locals_)
+                return self.P.get(name, False) or self._passthrough_call(name, e, locals_) or ((e.args or e.keywords) and self.productive_with_call(name, e, via_super=True))
             if cn in ("t.cast", "cast") and len(e.args) == 2:
                 return self.productive_expr(e.args[1], locals_)
         return False
@@ -415,6 +445,8 @@ class Model:
                 else:
                     # tuple unpack from a table-dispatched parser: `key, expression = parser(self)`
                     prod_idx = self._tuple_dispatch_productive(st, val) if isinstance(tg, ast.Tuple) and val is not None else set()
+                    if isinstance(tg, ast.Tuple) and isinstance(val, ast.Call) and (call_name(val) or "").startswith("self.") and (call_name(val) or "").count(".") == 1:
+                        prod_idx = prod_idx | self.tuple_productive((call_name(val) or "")[5:])
                     for i_, x in enumerate(tg.elts if isinstance(tg, (ast.Tuple, ast.List)) else []):
                         if isinstance(x, ast.Name):
                             new_pv.discard(x.id)
@@ -666,6 +698,29 @@ class Model:
                 return curr in toks
         return False
 
+    def tuple_productive(self, name: str) -> set[int]:
+        """indexes i such that every definition of `name` returns only tuple displays whose i-th element is productive"""
+        cache = self.__dict__.setdefault("_tp_cache", {})
+        if name in cache:
+            return cache[name]
+        cache[name] = set()
+        out: set[int] | None = None
+        for c, md in self.defs.get(name, []):
+            g = self.cfg(md)
+            IN, _ = self.flow(g, g.entry, {})
+            rets = [n for n in g.nodes if n.kind == "stmt" and isinstance(n.ast, ast.Return) and n in IN]
+            if not rets:
+                return set()
+            for n in rets:
+                v = n.ast.value
+                if not isinstance(v, ast.Tuple):
+                    return set()
+                loc = {x: True for x in IN[n][1]}
+                idxs = {i for i, el in enumerate(v.elts) if IN[n][0] >= 1 or self.productive_expr(el, loc)}
+                out = idxs if out is None else out & idxs
+        cache[name] = out or set()
+        return cache[name]
+
     def _tuple_dispatch_productive(self, st: ast.stmt, val: ast.AST) -> set[int]:
         """`k, e = parser(self)` where parser = self.TABLE[...] in the same function: indexes i such that in every
         TABLE literal of every parser class each value is a lambda returning a tuple whose i-th element is productive"""
@@ -718,7 +773,9 @@ class Model:
         sa, sb = dict(a[4]), dict(b[4])
         saved = frozenset((k, min(sa[k], sb[k])) for k in sa.keys() & sb.keys() if not k.startswith("!"))
         saved |= frozenset((k, max(sa.get(k, 0), sb.get(k, 0))) for k in sa.keys() | sb.keys() if k.startswith("!"))
-        return (min(a[0], b[0]), a[1] & b[1], a[2] & b[2], curr, saved)
+        # "v truthy => consumed" survives a join with a path on which v is known to be falsy (it holds vacuously there)
+        pv = (a[1] & b[1]) | (a[1] & b[2]) | (b[1] & a[2])
+        return (min(a[0], b[0]), pv, a[2] & b[2], curr, saved)
 
     @staticmethod
     def settled(state: tuple, returned: ast.AST | None = None) -> int:
@@ -780,7 +837,7 @@ class Model:
         return IN, back
 
     # ---- productive fixpoint -----------------------------------------------------------------------
-    def method_productive(self, c: Cls, md: ast.FunctionDef, passthrough: bool = False, defaults_only: bool = False) -> tuple[bool, str]:
+    def method_productive(self, c: Cls, md: ast.FunctionDef, passthrough: bool = False, defaults_only: bool = False, given: frozenset | None = None) -> tuple[bool, str]:
         g = self.cfg(md)
         init = frozenset()
         falsy: frozenset = frozenset()
@@ -792,10 +849,18 @@ class Model:
         if defaults_only:
             a = md.args
             pos = [x for x in a.args if x.arg != "self"]
-            if len(a.defaults) < len(pos) or a.vararg or any(d is None for d in a.kw_defaults):
+            if given is None and (len(a.defaults) < len(pos) or a.vararg or any(d is None for d in a.kw_defaults)):
                 return False, "has required parameters"
             names_defaults = list(zip([x.arg for x in pos][len(pos) - len(a.defaults):], a.defaults)) + list(zip([x.arg for x in a.kwonlyargs], a.kw_defaults))
-            falsy = frozenset(nm for nm, d in names_defaults if isinstance(d, ast.Constant) and not d.value)
+            falsy = frozenset(nm for nm, d in names_defaults if isinstance(d, ast.Constant) and not d.value and nm not in (given or ()))
+        saved_falsy, saved_md = self.__dict__.get("_cur_falsy", frozenset()), self.__dict__.get("_cur_md")
+        self._cur_falsy, self._cur_md = falsy, md
+        try:
+            return self._method_productive_body(c, md, g, init, falsy)
+        finally:
+            self._cur_falsy, self._cur_md = saved_falsy, saved_md
+
+    def _method_productive_body(self, c: Cls, md: ast.FunctionDef, g: CFG, init: frozenset, falsy: frozenset) -> tuple[bool, str]:
         IN, _ = self.flow(g, g.entry, {}, init_pv=init, falsy=falsy, init_fv=falsy)
         for n in g.nodes:
             if n.kind == "stmt" and isinstance(n.ast, ast.Return) and n in IN:
@@ -965,6 +1030,18 @@ def rule_a(ctx: Ctx) -> None:
         units.append((tc.module, f"{tc.key}.{name}", md))
     for m, where, fn in units:
         loops = [x for x in walk_no_nested(fn) if isinstance(x, ast.While) or (isinstance(x, ast.For) and isinstance(x.iter, ast.Call) and call_name(x.iter) == "iter" and len(x.iter.args) == 2)]
+        # iter(f, sentinel) handed to someone else (returned, list(...)): the consumer repeats f until it returns the sentinel
+        in_for = {id(x.iter) for x in loops if isinstance(x, ast.For)}
+        for c_ in walk_no_nested(fn):
+            if isinstance(c_, ast.Call) and call_name(c_) == "iter" and len(c_.args) == 2 and id(c_) not in in_for and not where.startswith("sqlglot.tokenizer_core"):
+                n_loops += 1
+                f0 = c_.args[0]
+                inst = f"{where}|{norm(c_, 80)}"
+                if model.productive_callable(f0, {}):
+                    ctx.ok(inst, {"loop": norm(c_, 80), "in": where, "witness": "iter(f, sentinel) with productive f"})
+                else:
+                    ctx.fail(m, c_, where, norm(c_, 80), f"`{norm(c_, 70)}` repeats while the callee returns a non-sentinel value, but the callee is not proven to consume a token "
+                             f"whenever it does: such input makes the consumer of this iterator loop forever")
         if not loops:
             continue
         g = model.cfg(fn)
